@@ -303,6 +303,21 @@ pub fn shapes() -> Vec<ProgCase> {
         }
         out.push(mk(format!("deep_out_in_call/{extra}"), format!("proc.f push.1 drop end begin {pushes} call.f end"), input_regime(3), vec!["stack", "overflow"]));
     }
+    // kernels with more than one procedure (the kernel ROM has a row for every procedure, called or not):
+    // all called, one called several times, only the middle one called, none called
+    let k2 = "export.k1 push.1 drop end export.k2 push.2 drop end";
+    let k3 = "export.k1 push.1 drop end export.k2 push.2 drop end export.k3 push.3 drop end";
+    for (name, src, kernel) in [
+        ("k2_all", "begin syscall.k1 syscall.k2 syscall.k1 end", k2),
+        ("k2_one", "begin syscall.k2 end", k2),
+        ("k3_all", "begin syscall.k3 syscall.k1 syscall.k2 syscall.k3 end", k3),
+        ("k3_middle", "proc.f syscall.k2 end begin call.f syscall.k2 end", k3),
+        ("k3_none", "begin push.1 drop end", k3),
+    ] {
+        let mut c = mk(format!("kernel_procs/{name}"), src.to_string(), input_regime(2), vec!["stack", "kernel"]);
+        c.kernel = Some(kernel.to_string());
+        out.push(c);
+    }
     // overflow-table histories that end deeper than 16 after the table shrank and grew again: rows that were
     // popped lie between the surviving rows (the reported overflow addresses must be those of the survivors)
     for (k, body) in [
